@@ -851,6 +851,14 @@ class Module:
         self.assigns: Dict[str, ast.AST] = {}                      # module-level NAME = value (last wins)
         self._index()
 
+    def const(self, name: str, depth: int = 0):
+        """module-level value bound to `name`, following plain aliases (`ivp_methods = _IVP_METHODS`)"""
+        v = self.assigns.get(name)
+        while isinstance(v, ast.Name) and v.id in self.assigns and depth < 5:
+            v = self.assigns[v.id]
+            depth += 1
+        return v
+
     def _index(self):
         for n in ast.walk(self.tree):
             for ch in ast.iter_child_nodes(n):
